@@ -14,7 +14,7 @@ import (
 func generateSliceProgram(tp *sim.Tape) string {
 	var sb strings.Builder
 	n := []int{8, 16, 4}[tp.Pick(3, 3, 1)]
-	fmt.Fprintf(&sb, "pub struct foo?(\n\tbuf : array[%d] base.u8,\n\tf0 : base.u32,\n)\n\n", n)
+	fmt.Fprintf(&sb, "pub struct foo?(\n\tbuf : array[%d] base.u8,\n\twide : array[8] base.u32,\n\tf0 : base.u32,\n)\n\n", n)
 	sb.WriteString("pub func foo.fill!(v: base.u8) {\n\tvar i : base.u32\n")
 	fmt.Fprintf(&sb, "\twhile i < %d {\n\t\tthis.buf[i] = args.v ~mod+ ((i & 0xFF) as base.u8)\n\t\ti += 1\n\t}\n}\n\n", n)
 	mech := map[string]string{"fill": "helper"}
@@ -22,12 +22,30 @@ func generateSliceProgram(tp *sim.Tape) string {
 	for m := 0; m < nm; m++ {
 		fmt.Fprintf(&sb, "pub func foo.m%d!(a0: base.u32, a1: base.u32) base.u32 {\n", m)
 		sb.WriteString("\tvar s : slice base.u8\n\tvar t : slice base.u8\n\tvar i : base.u32\n\tvar j : base.u32\n\tvar r : base.u32\n")
+		fmt.Fprintf(&sb, "\tvar ws : slice base.u32\n\tvar la : array[%d] base.u8\n", n)
 		fmt.Fprintf(&sb, "\ti = args.a0 & %d\n\tj = args.a1 & %d\n", []int{3, 7, 15, 31}[tp.Draw(4)], []int{3, 7, 15, 31}[tp.Draw(4)])
 		k := func() int { return tp.Draw(n + 1) }
 		ns := 3 + tp.Draw(6)
 		for q := 0; q < ns; q++ {
 			var l []string
-			switch tp.Pick(2, 4, 4, 3, 3, 2, 2, 1, 3, 2) {
+			switch tp.Pick(2, 4, 4, 3, 3, 2, 2, 1, 3, 2, 3, 3) {
+			case 10: // slices and elements wider than a byte
+				a, b := tp.Draw(9), tp.Draw(9)
+				if a > b {
+					a, b = b, a
+				}
+				l = []string{fmt.Sprintf("this.wide[i & 7] = (args.a1 ~mod* %d) ~mod+ j", 1+tp.Draw(1000)), fmt.Sprintf("ws = this.wide[%d .. %d]", a, b)}
+				if b > a {
+					c := tp.Draw(b - a)
+					l = append(l, fmt.Sprintf("r ~mod+= ws[%d]", c), fmt.Sprintf("ws[%d] = r ~mod+ %d", c, tp.Draw(5)))
+				}
+				l = append(l, "r ~mod+= (ws.length() & 0xFF) as base.u32")
+			case 11: // whole-array assignment and a local array
+				l = [][]string{
+					{"la = this.buf", fmt.Sprintf("la[i & %d] = (r & 0xFF) as base.u8", n-1), "this.buf = la"},
+					{"la = this.buf", fmt.Sprintf("r ~mod+= la[j & %d] as base.u32", n-1)},
+					{fmt.Sprintf("la[%d] = 9", tp.Draw(n)), "this.buf = la", "s = this.buf[..]"},
+				}[tp.Draw(3)]
 			case 0:
 				l = []string{"s = this.buf[..]"}
 			case 1: // constant bounds
